@@ -9,6 +9,7 @@ CONSTANTS
   MaxRuns = 3
   MaxKills = 2
   MaxInterrupts = 1
+  RepairPartial = TRUE
   Planned = FALSE
 INIT Init
 NEXT Next
